@@ -401,6 +401,10 @@ class CancelScope(AbstractCancelScope):
     def __cancel_task_unless_done(task: asyncio.Task[Any], cancel_msg: str | None) -> None:
         if task.done():
             return
+        if not task.cancelling():
+            # Whoever requested the postponed cancellation has withdrawn it in the meantime
+            # (e.g. an asyncio.timeout() block which has been exited since): do not bring it back.
+            return
         task.uncancel()
         task.cancel(cancel_msg)
 
